@@ -125,3 +125,51 @@ def impl_values(kind, arg):
     if kind == "po":
         return impl_po_unescape(arg)
     return impl_comment_val(kind, arg)
+
+
+# ---------------------------------------------------------------- round 5 (additive): histories on one parser object
+def view_entry(fmt, e):
+    """what C02 observes of an entry: entity = key, raw value, value, attached comment; junk / stand-alone comment = its text"""
+    k = kind_of(e)
+    if k == "E":
+        key = e.key
+        return ["E", list(key) if isinstance(key, tuple) else key, e.raw_val, e.val, comment_of(fmt, e)]
+    if k == "J":
+        return ["J", e.all]
+    if k == "C":
+        return ["C", e.val]
+    return [k]
+
+
+def impl_history(fmt, ops):
+    """the entries every consuming operation of a history on ONE parser object obtained (impl.parse.run_history), as views;
+    the same for a FRESH parser object per text read; canonical line of Ops/C02.lean `c02.hist` for the regex formats"""
+    from impl.parse import run_history
+    canon = []
+
+    def show(e):
+        return [view_entry(fmt, e), canon_entry(fmt, e) if fmt in REGEX_FORMATS else None]
+
+    p, recs = run_history(fmt, ops, show)
+    out = []
+    for r in recs:
+        o = {"i": r["i"], "status": r["status"], "shown": [s[0] for s in r["shown"]]}
+        if "lookups" in r:
+            o["lookups"] = r["lookups"]
+        out.append(o)
+        canon.append(" | ".join([("stuck" if r["status"] == "runaway" else r["status"])] + [s[1] or "" for s in r["shown"]]))
+    fresh = {}
+    for op in ops:
+        if op[0] in ("R", "RC", "RF") and op[1] not in fresh:
+            views = []
+            for loc in (False, True):
+                q = get_parser(fmt)
+                q.readUnicode(op[1])
+                got = []
+                for e in (iter(q) if loc else q.walk()):
+                    got.append(view_entry(fmt, e))
+                    if len(got) > 2 * len(op[1]) + 50:
+                        break
+                views.append(got)
+            fresh[op[1]] = {"full": views[0], "loc": views[1]}
+    return {"recs": out, "fresh": fresh, "canon": " || ".join(canon) if fmt in REGEX_FORMATS else None}
